@@ -126,11 +126,13 @@ impl LowConn {
 
 // (the last ones: a secure name behind a white-space character that is neither blank nor line end -- a different, ordinary key)
 const KEYARGS: [&str; 13] = ["$$token", "$$user_x", "$$permission_$x", "$$secret", "$secret", "secret", "*", "$$*", "*$$", "$$", "\t$$secret", "\t$$token", "\u{a0}$$secret"];
-const TEMPLATES: [&str; 30] = [
+const TEMPLATES: [&str; 32] = [
     "get {K}", "get-safe {K}", "set {K} lowval", "set-safe {K} 0 lowval", "set-safe {K} 99 lowval", "remove {K}", "increment {K} 1", "increment {K}",
     "watch {K}", "unwatch {K}", "keys {K}", "ls {K}", "keys", "arbiter", "resolve 7 d {K} 1 lowval", "resolve 7 d {K} -2 lowval",
     "rp 9 get {K}", "rp 9 set {K} lowval", "rp 9 remove {K}", "replicate d {K} 1 lowval", "replicate-remove d {K}", "replicate-increment d {K} 1",
     "create-user {K} tok", "set-permissions x rwix {K}", "snapshot false", "debug pendding-conflitcts", "cluster-state", "unwatch-all", "use-db d {K}", "use-db d x {K}",
+    // (users that exist in one world only: a failed login must not tell which)
+    "use-db d onlyA guess", "use-db d onlyB guess",
 ];
 
 fn gen(rng: &mut Rng) -> Program {
@@ -211,6 +213,8 @@ fn execute(prog: Program, variant: &'static str) -> WorldResult {
     admin.exec(&format!("set-permissions x {}", if variant == "A" { "rwix s*" } else { "rwix $s*" }));
     // a secure key whose very name differs between the worlds (listings must not show it)
     admin.exec(&format!("set $$only{} 1", variant));
+    // a user whose very existence differs between the worlds
+    admin.exec(&format!("create-user only{} otok", variant));
     admin.exec("create-user lo lotok");
     admin.exec(&format!("set-permissions lo {}", prog.low_permissions));
     admin.exec("set secret pub1");
